@@ -88,6 +88,7 @@ Qed.
 (* ---------- the invariant ---------- *)
 
 Lemma flag_delete_marker : cache_delete_leaves_marker = true. Proof. reflexivity. Qed.
+Lemma flag_big_marked : cache_big_values_marked = true. Proof. reflexivity. Qed.
 
 Definition reader_ok (s : sch) (starts : list (nat * N)) (i : nat) (r : rpc * list rop) : Prop :=
   match fst r with
@@ -99,7 +100,7 @@ Definition reader_ok (s : sch) (starts : list (nat * N)) (i : nat) (r : rpc * li
 Record Inv (s : sch) (starts : list (nat * N)) : Prop := mkInv {
   I_hist : exists tl, s_hist s = s_store s :: tl /\ length tl = N.to_nat (s_started s);
   I_le : s_completed s <= s_started s;
-  I_cache : forall e, s_cache s = Some e -> fresh (s_hist s) (s_completed s) e;
+  I_cache : forall e r, s_cache s = Some e -> entry_answer e = Some r -> fresh (s_hist s) (s_completed s) r;
   I_nocache : s_cache s = None -> s_completed s = 0;
   I_wpc : forall w, s_wpc s = Some w -> s_store s = wcontent w;
   I_readers : forall i r, nth_error (s_readers s) i = Some r -> reader_ok s starts i r
@@ -115,12 +116,12 @@ Qed.
 (* every schedule the model can run satisfies the oracle (the oracle's own bookkeeping of
    the content history and of the remaining program coincides with the model's) *)
 Theorem no_stale_marker_proved : forall ps s starts obs wmid,
-  Inv s starts -> sch_run_gen true s ps = Some obs -> no_stale (s_hist s) (s_wprog s) wmid starts ps obs = true.
+  Inv s starts -> sch_run_gen true true s ps = Some obs -> no_stale (s_hist s) (s_wprog s) wmid starts ps obs = true.
 Proof.
   induction ps as [|p ps IH]; intros s starts obs wmid HI Hrun; cbn in Hrun.
   - inversion Hrun; subst. reflexivity.
-  - destruct (sch_step_gen true s p) as [[s' o]|] eqn:Es; [|discriminate].
-    destruct (sch_run_gen true s' ps) as [obs'|] eqn:Er; [|discriminate]. cbn in Hrun. inversion Hrun; subst obs. clear Hrun.
+  - destruct (sch_step_gen true true s p) as [[s' o]|] eqn:Es; [|discriminate].
+    destruct (sch_run_gen true true s' ps) as [obs'|] eqn:Er; [|discriminate]. cbn in Hrun. inversion Hrun; subst obs. clear Hrun.
     destruct HI as [H1 H2 H3 H4 H5b H6]. destruct H1 as (tl & Hh & Hlen).
     destruct p as [|i]; cbn [sch_step_gen] in Es.
     + (* writer *)
@@ -128,24 +129,25 @@ Proof.
       * (* cache step *)
         inversion Es; subst s' o. clear Es. cbn [no_stale].
         pose proof (H5b w eq_refl) as Hst.
-        match type of Er with sch_run_gen _ ?s' _ = _ => specialize (IH s' starts obs' false) end.
+        match type of Er with sch_run_gen _ _ ?s' _ = _ => specialize (IH s' starts obs' false) end.
         cbn [s_hist s_wprog] in IH. apply IH; [|exact Er].
         assert (Hfr : fresh (s_hist s) (s_started s) (wcontent w)).
         { rewrite Hh, Hst. apply fresh_head. lia. }
         constructor; cbn [s_hist s_store s_cache s_wpc s_wprog s_completed s_started s_readers].
         -- exists tl. split; auto.
         -- lia.
-        -- intros e E. destruct w; inversion E; subst; exact Hfr.
-        -- destruct w; discriminate.
+        -- intros e r E A. unfold set_val in E. destruct (wcontent w) as [v|]; [destruct (big_val v)|];
+             inversion E; subst e; cbn in A; inversion A; subst r; exact Hfr.
+        -- unfold set_val. destruct (wcontent w) as [v|]; [destruct (big_val v)|]; discriminate.
         -- intros w' E; discriminate.
         -- intros j r Hr. specialize (H6 j r Hr). unfold reader_ok in *. cbn [s_completed s_hist].
            destruct (fst r); auto. destruct H6 as [c [E L]]. exists c. split; auto. lia.
       * destruct (s_wprog s) as [|w rest] eqn:Ep; [discriminate|]. inversion Es; subst s' o. clear Es. cbn [no_stale].
-        match type of Er with sch_run_gen _ ?s' _ = _ => specialize (IH s' starts obs' true) end. cbn [s_hist s_wprog] in IH. apply IH; [|exact Er].
+        match type of Er with sch_run_gen _ _ ?s' _ = _ => specialize (IH s' starts obs' true) end. cbn [s_hist s_wprog] in IH. apply IH; [|exact Er].
         constructor; cbn [s_hist s_store s_cache s_wpc s_wprog s_completed s_started s_readers].
         -- exists (s_hist s). split; auto. rewrite Hh. cbn [length]. lia.
         -- lia.
-        -- intros e E. apply fresh_cons. apply H3. exact E.
+        -- intros e r E A. apply fresh_cons. eapply H3; eauto.
         -- exact H4.
         -- intros w' E; inversion E; subst; auto.
         -- intros j r Hr. specialize (H6 j r Hr). unfold reader_ok in *. cbn [s_completed s_hist].
@@ -159,14 +161,17 @@ Proof.
       { intros starts' rs' Hr. constructor; cbn; auto. exists tl. split; auto. }
       destruct pc as [|o0|o0 e0].
       * destruct rest as [|ro rest]; [discriminate|].
-        destruct (s_cache s) as [e|] eqn:Ec; inversion Es; subst s' o. clear Es.
-        -- (* hit *) cbn [no_stale]. rewrite (proj2 (fresh_enough_spec _ _ _) (H3 e eq_refl)). cbn [andb].
-           match type of Er with sch_run_gen _ ?s' _ = _ => specialize (IH s' starts obs' wmid) end. cbn in IH. apply IH; [|exact Er].
+        destruct (match s_cache s with Some e => entry_answer e | None => None end) as [e|] eqn:Ec; inversion Es; subst s' o. clear Es.
+        -- (* hit *) cbn [no_stale].
+           assert (Hfe : fresh (s_hist s) (s_completed s) e).
+           { destruct (s_cache s) as [e1|] eqn:Ec1; [|discriminate]. exact (H3 e1 e eq_refl Ec). }
+           rewrite (proj2 (fresh_enough_spec _ _ _) Hfe). cbn [andb].
+           match type of Er with sch_run_gen _ _ ?s' _ = _ => specialize (IH s' starts obs' wmid) end. cbn in IH. apply IH; [|exact Er].
            apply Hframe. intros j r Hr. destruct (Nat.eq_dec i j) as [<-|Nij].
            ++ rewrite (nth_error_set_nth_same _ _ _ _ En) in Hr. inversion Hr; subst. exact Hi.
            ++ rewrite nth_error_set_nth_other in Hr by assumption. exact (H6 j r Hr).
         -- (* miss *) cbn [no_stale].
-           match type of Er with sch_run_gen _ ?s' _ = _ => specialize (IH s' ((i, s_completed s) :: starts) obs' wmid) end. cbn in IH. apply IH; [|exact Er].
+           match type of Er with sch_run_gen _ _ ?s' _ = _ => specialize (IH s' ((i, s_completed s) :: starts) obs' wmid) end. cbn in IH. apply IH; [|exact Er].
            apply Hframe. intros j r Hr. destruct (Nat.eq_dec i j) as [<-|Nij].
            ++ rewrite (nth_error_set_nth_same _ _ _ _ En) in Hr. inversion Hr; subst. unfold reader_ok. cbn [fst].
               exists (s_completed s). rewrite entry_cons_same. split; [reflexivity|lia].
@@ -174,7 +179,7 @@ Proof.
               unfold reader_ok in *. rewrite entry_cons_other by assumption. exact H6.
       * (* storage read *)
         inversion Es; subst s' o. clear Es. cbn [no_stale].
-        match type of Er with sch_run_gen _ ?s' _ = _ => specialize (IH s' starts obs' wmid) end. cbn in IH. apply IH; [|exact Er].
+        match type of Er with sch_run_gen _ _ ?s' _ = _ => specialize (IH s' starts obs' wmid) end. cbn in IH. apply IH; [|exact Er].
         apply Hframe. intros j r Hr. destruct (Nat.eq_dec i j) as [<-|Nij].
         -- rewrite (nth_error_set_nth_same _ _ _ _ En) in Hr. inversion Hr; subst. unfold reader_ok. cbn [fst].
            destruct Hi as [c [E L]]. exists c. split; auto. rewrite Hh. apply fresh_head. lia.
@@ -183,18 +188,21 @@ Proof.
         inversion Es; subst s' o. clear Es. cbn [no_stale].
         destruct Hi as [c [E L]]. fold (entry_of starts i). rewrite E.
         rewrite (proj2 (fresh_enough_spec _ _ _) L). cbn [andb].
-        match type of Er with sch_run_gen _ ?s' _ = _ => specialize (IH s' (filter (fun e => negb (Nat.eqb (fst e) i)) starts) obs' wmid) end. cbn [s_hist s_wprog] in IH. apply IH; [|exact Er].
-        assert (Hfill : forall c', reader_fill o0 e0 (s_cache s) = Some c' ->
-                          (s_cache s = Some c') \/ (s_cache s = None /\ c' = e0)).
+        match type of Er with sch_run_gen _ _ ?s' _ = _ => specialize (IH s' (filter (fun e => negb (Nat.eqb (fst e) i)) starts) obs' wmid) end. cbn [s_hist s_wprog] in IH. apply IH; [|exact Er].
+        assert (Hfill : forall c', reader_fill true o0 e0 (s_cache s) = Some c' ->
+                          (s_cache s = Some c') \/ (s_cache s = None /\ forall r, entry_answer c' = Some r -> r = e0)).
         { intros c' Hc. unfold reader_fill in Hc. rewrite flag_fill_guarded, flag_ttlget_guarded in Hc.
-          unfold fill_if_absent in Hc. destruct o0, e0, (s_cache s); inversion Hc; auto. }
+          unfold fill_if_absent, set_val in Hc.
+          destruct o0, e0 as [v0|], (s_cache s); try destruct (big_val v0); inversion Hc; auto;
+            right; (split; [reflexivity|]); intros r A; cbn in A; congruence. }
         constructor; cbn [s_hist s_store s_cache s_wpc s_wprog s_completed s_started s_readers].
         -- exists tl. split; auto.
         -- exact H2.
-        -- intros e' Hc. destruct (Hfill e' Hc) as [Hc'|[Hc' ->]]; [apply H3; exact Hc'|].
-           rewrite (H4 Hc'). eapply fresh_le; [|exact L]. lia.
+        -- intros e' r Hc A. destruct (Hfill e' Hc) as [Hc'|[Hc' Hr]]; [eapply H3; eauto|].
+           rewrite (Hr r A). rewrite (H4 Hc'). eapply fresh_le; [|exact L]. lia.
         -- intros Hc. apply H4. unfold reader_fill in Hc. rewrite flag_fill_guarded, flag_ttlget_guarded in Hc.
-           unfold fill_if_absent in Hc. destruct o0, e0, (s_cache s); try discriminate; reflexivity.
+           unfold fill_if_absent, set_val in Hc.
+           destruct o0, e0 as [v0|], (s_cache s); try destruct (big_val v0); try discriminate; reflexivity.
         -- exact H5b.
         -- intros j r Hr. destruct (Nat.eq_dec i j) as [<-|Nij].
            ++ rewrite (nth_error_set_nth_same _ _ _ _ En) in Hr. inversion Hr; subst. unfold reader_ok. cbn [fst].
@@ -206,23 +214,67 @@ Qed.
 (* the code as it is: the flag read from the source says "marker" *)
 Theorem no_stale_after_complete_proved : forall ps s starts obs wmid,
   Inv s starts -> sch_run s ps = Some obs -> no_stale (s_hist s) (s_wprog s) wmid starts ps obs = true.
-Proof. unfold sch_run. rewrite flag_delete_marker. exact no_stale_marker_proved. Qed.
+Proof. unfold sch_run. rewrite flag_delete_marker, flag_big_marked. exact no_stale_marker_proved. Qed.
 
 (* ================= sequential transparency over the reference storage ================= *)
 From V Require Import Storage.SpecLaws.
 Local Open Scope Z_scope.
 
+(* an entry that setCached lets through fits fastcache: maxCachedEntrySize + 4 <= chunkSize (and the
+   two 16-bit length fields suffice) *)
+Lemma flag_sizes : (cache_max_entry_size + 4 <=? fastcache_chunk_size) && (cache_max_entry_size <=? 65536) = true.
+Proof. reflexivity. Qed.
+
+Lemma fits_neg pk cc : key_fits pk cc = true -> fc_fits pk cc CNeg = true.
+Proof.
+  unfold key_fits, fc_fits, entry_len. intros H.
+  apply andb_true_iff in H. destruct H as [H H3]. apply andb_true_iff in H. destruct H as [H1 H2].
+  apply Z.ltb_lt in H1, H3.
+  repeat (apply andb_true_intro; split); apply Z.ltb_lt; unfold blen in *; lia.
+Qed.
+
+Lemma fits_pos pk cc ex v : key_fits pk cc = true -> too_big pk cc v = false -> fc_fits pk cc (CPos ex v) = true.
+Proof.
+  unfold key_fits, fc_fits, too_big, entry_len. intros H T.
+  pose proof flag_sizes as F. apply andb_true_iff in F. destruct F as [F1 F2]. apply Z.leb_le in F1, F2.
+  apply andb_true_iff in H. destruct H as [H H3]. apply andb_true_iff in H. destruct H as [H1 H2].
+  apply Z.ltb_lt in H1, H3. apply Z.leb_gt in T.
+  repeat (apply andb_true_intro; split); apply Z.ltb_lt; unfold blen in *; lia.
+Qed.
+
+(* in bytes: the mark fits iff the cache key is shorter than chunkSize - 5 *)
+Lemma key_fits_iff_proved pk cc : key_fits pk cc = true <-> blen pk + blen cc <= 65530.
+Proof.
+  unfold key_fits, fc_fits, entry_len, blen. change fastcache_chunk_size with 65536.
+  rewrite !andb_true_iff, !Z.ltb_lt. lia.
+Qed.
+
+Lemma set_neg_fits c pk cc : key_fits pk cc = true -> set_neg c pk cc = c_set c pk cc CNeg.
+Proof. intros H. unfold set_neg, fc_set. rewrite (fits_neg pk cc H). reflexivity. Qed.
+
+(* with the mark, a store of a found row always leaves an entry that was written by this store *)
+Lemma set_pos_cases c pk cc ex v : key_fits pk cc = true ->
+  set_pos true c pk cc ex v = c_set c pk cc CBig \/ set_pos true c pk cc ex v = c_set c pk cc (CPos ex v).
+Proof.
+  intros H. unfold set_pos, fc_set. cbn [andb]. destruct (too_big pk cc v) eqn:T.
+  - left. unfold key_fits in H. rewrite H. reflexivity.
+  - right. rewrite (fits_pos pk cc ex v H T). reflexivity.
+Qed.
+
 Section SeqProof.
-(* the (pKey, cCols) pairs a history uses; on them the cache key must be injective (finding F7) *)
+(* the (pKey, cCols) pairs a history uses; on them the cache key must be injective (finding F7) and
+   short enough for the mark to fit a fastcache chunk (shorter than 65531 bytes, finding F26b) *)
 Variable K : bytes * bytes -> Prop.
 Hypothesis K_inj : forall k1 k2, K k1 -> K k2 -> make_key (fst k1) (snd k1) = make_key (fst k2) (snd k2) -> k1 = k2.
+Hypothesis K_fits : forall k, K k -> key_fits (fst k) (snd k) = true.
 
 Notation cstate := (cst (U:=sstate)).
 
 Definition entry_ok (st : store bytes) (now : Z) (pk cc : bytes) (e : option centry) : Prop :=
   match e with
-  | Some (Some (exp, v)) => raw_lookup st pk cc = Some (mkRow v exp)
-  | Some None => lookup now st pk cc = None
+  | Some (CPos exp v) => raw_lookup st pk cc = Some (mkRow v exp)
+  | Some CBig => True                         (* reads consult the storage *)
+  | Some CNeg => lookup now st pk cc = None
   | None => lookup now st pk cc = None
   end.
 
@@ -272,32 +324,45 @@ Lemma entry_ok_congr st st' now pk cc e :
   raw_lookup st' pk cc = raw_lookup st pk cc -> entry_ok st now pk cc e -> entry_ok st' now pk cc e.
 Proof.
   intros H. unfold entry_ok. rewrite (lookup_raw_congr st st' now pk cc H).
-  destruct e as [[[ex v]|]|]; auto. rewrite H. auto.
+  destruct e as [[|ex v|]|]; auto. rewrite H. auto.
 Qed.
 
-(* write-through of one row *)
-Lemma CI_write st now c pk cc v ex : CI (mkC (st, now) c now) -> K (pk, cc) ->
-  CI (mkC (set_row st pk cc (mkRow v ex), now) (c_set c pk cc (Some (ex, v))) now).
+(* the cache gets entry e under one key while the storage changes at most the row of that key *)
+Lemma CI_set st st' now c pk cc e : CI (mkC (st, now) c now) -> K (pk, cc) ->
+  entry_ok st' now pk cc (Some e) ->
+  (forall pk' cc', (pk', cc') <> (pk, cc) -> raw_lookup st' pk' cc' = raw_lookup st pk' cc') ->
+  parts_sorted st' ->
+  CI (mkC (st', now) (c_set c pk cc e) now).
 Proof.
-  intros [Hn He Hs Hc] HK. cbn [c_now c_under c_cache fst snd] in *. constructor; cbn [c_now c_under c_cache fst snd]; auto.
+  intros [Hn He Hs Hc] HK Hok Hfr Hs'. cbn [c_now c_under c_cache fst snd] in *. constructor; cbn [c_now c_under c_cache fst snd]; auto.
   - intros pk' cc' HK'. destruct (key_dec pk cc pk' cc') as [E|N].
-    + inversion E; subst. rewrite c_get_set_same. cbn. apply raw_set_same.
+    + inversion E; subst. rewrite c_get_set_same. exact Hok.
     + rewrite c_get_set_other by assumption. eapply entry_ok_congr; [|apply He; assumption].
-      apply raw_set_other. assumption.
-  - apply set_row_sorted. exact Hs.
+      apply Hfr. assumption.
   - apply sm_put_sorted. exact Hc.
+Qed.
+
+(* write-through of one row, whatever its size *)
+Lemma CI_write st now c pk cc v ex : CI (mkC (st, now) c now) -> K (pk, cc) ->
+  CI (mkC (set_row st pk cc (mkRow v ex), now) (set_pos true c pk cc ex v) now).
+Proof.
+  intros HCI HK.
+  assert (Hfr : forall pk' cc', (pk', cc') <> (pk, cc) ->
+                raw_lookup (set_row st pk cc (mkRow v ex)) pk' cc' = raw_lookup st pk' cc').
+  { intros pk' cc' N. apply raw_set_other. assumption. }
+  assert (Hs' : parts_sorted (set_row st pk cc (mkRow v ex))).
+  { apply set_row_sorted. exact (CI_sorted _ HCI). }
+  destruct (set_pos_cases c pk cc ex v (K_fits (pk, cc) HK)) as [E|E]; rewrite E;
+    apply (CI_set st _ now c pk cc _ HCI HK); auto; cbn [entry_ok]; auto. apply raw_set_same.
 Qed.
 
 (* caching "known missing" for a key whose live view is empty *)
 Lemma CI_negative st now c pk cc : CI (mkC (st, now) c now) -> K (pk, cc) -> lookup now st pk cc = None ->
-  CI (mkC (st, now) (c_set_if_absent c pk cc None) now).
+  CI (mkC (st, now) (set_neg_if_absent c pk cc) now).
 Proof.
-  intros HCI HK HL. unfold c_set_if_absent. destruct (c_get c pk cc) eqn:Eg; [exact HCI|].
-  destruct HCI as [Hn He Hs Hc]. cbn [c_now c_under c_cache fst snd] in *. constructor; cbn [c_now c_under c_cache fst snd]; auto.
-  - intros pk' cc' HK'. destruct (key_dec pk cc pk' cc') as [E|N].
-    + inversion E; subst. rewrite c_get_set_same. cbn. exact HL.
-    + rewrite c_get_set_other by assumption. apply He. assumption.
-  - apply sm_put_sorted. exact Hc.
+  intros HCI HK HL. unfold set_neg_if_absent. destruct (c_get c pk cc) eqn:Eg; [exact HCI|].
+  rewrite (set_neg_fits c pk cc (K_fits (pk, cc) HK)).
+  apply (CI_set st st now c pk cc CNeg HCI HK); auto. exact (CI_sorted _ HCI).
 Qed.
 
 Lemma lookup_mono (st : store bytes) now d pk cc : 0 <= d -> lookup now st pk cc = None -> lookup (now + d) st pk cc = None.
@@ -324,18 +389,19 @@ Definition op_domain (o : sop) : Prop :=
 
 Lemma CI_put_batch items : forall st now c, CI (mkC (st, now) c now) -> Forall K (map fst items) ->
   CI (mkC (put_batch st items, now)
-          (fold_left (fun c it => c_set c (fst (fst it)) (snd (fst it)) (Some (0, snd it))) items c) now).
+          (fold_left (fun c it => set_pos true c (fst (fst it)) (snd (fst it)) 0 (snd it)) items c) now).
 Proof.
   unfold put_batch. induction items as [|[[pk cc] v] items IH]; intros st now c HCI HK; cbn [fold_left fst snd map] in *; [exact HCI|].
   inversion HK as [|? ? Hk Hr]; subst. apply IH; [|exact Hr]. apply (CI_write st now c pk cc v 0 HCI Hk).
 Qed.
 
-(* filling after a storage GetBatch: a key that is not cached has no live row, so the storage said "missing" *)
+(* filling after a storage GetBatch: a key without an entry has no live row, so the storage said
+   "missing"; a key with an entry (the mark included) is left alone *)
 Lemma CI_batch_fill st now pk ccs : forall c, CI (mkC (st, now) c now) -> Forall (fun cc => K (pk, cc)) ccs ->
   CI (mkC (st, now)
           (fold_left (fun c ccv => match snd ccv with
-                                   | Some v => fill_positive_batch c pk (fst ccv) v
-                                   | None => c_set_if_absent c pk (fst ccv) None
+                                   | Some v => fill_positive_batch true c pk (fst ccv) v
+                                   | None => set_neg_if_absent c pk (fst ccv)
                                    end) (combine ccs (get_batch now st pk ccs)) c) now).
 Proof.
   induction ccs as [|cc ccs IH]; intros c HCI HK; cbn [get_batch map combine fold_left fst snd]; [exact HCI|].
@@ -343,25 +409,26 @@ Proof.
   pose proof (CI_entries _ HCI pk cc Hk) as He. cbn [c_under c_cache fst snd] in He.
   unfold fill_positive_batch. rewrite flag_batch_fill_guarded.
   destruct (c_get c pk cc) as [e|] eqn:Eg.
-  - (* already cached: nothing changes *)
-    destruct (get now st pk cc); unfold c_set_if_absent; rewrite Eg; exact HCI.
+  - (* an entry is there: nothing changes *)
+    destruct (get now st pk cc); unfold set_pos_if_absent, set_neg_if_absent; rewrite Eg; exact HCI.
   - cbn [entry_ok] in He. unfold get. rewrite He. cbn [option_map]. apply CI_negative; assumption.
 Qed.
 
 Lemma get_cached_agrees st now c pk cc : CI (mkC (st, now) c now) -> K (pk, cc) ->
-  forall e, c_get c pk cc = Some e ->
+  forall e, c_answer c pk cc = Some e ->
   (match raw_lookup st pk cc with Some r => negb (rexp r =? 0) | None => false end) = false ->
-  (match e with Some (_, v) => Some v | None => None end) = get now st pk cc.
+  (match e with CPos _ v => Some v | _ => None end) = get now st pk cc.
 Proof.
-  intros HCI Hk e Eg Hd. pose proof (CI_entries _ HCI pk cc Hk) as He. cbn [c_under c_cache fst snd] in He.
-  rewrite Eg in He. destruct e as [[ex v]|]; cbn [entry_ok] in He.
+  intros HCI Hk e Ea Hd. pose proof (CI_entries _ HCI pk cc Hk) as He. cbn [c_under c_cache fst snd] in He.
+  unfold c_answer in Ea. destruct (c_get c pk cc) as [[|ex v|]|]; inversion Ea; subst e; cbn [entry_ok] in He.
+  - unfold get. rewrite He. reflexivity.
   - rewrite He in Hd. cbn [rexp] in Hd. apply negb_false_iff, Z.eqb_eq in Hd. subst ex.
     unfold get, lookup. rewrite He. reflexivity.
-  - unfold get. rewrite He. reflexivity.
 Qed.
 
-Theorem cache_step_transparent s o : CI s -> op_domain o ->
-  let r := cache_step spec_step s o in
+(* one step of the cache as the code has it now (big values marked) *)
+Theorem cache_step_gen_transparent s o : CI s -> op_domain o ->
+  let r := cache_step_gen spec_step true s o in
   CI (fst r) /\ c_under (fst r) = fst (spec_step (c_under s) o) /\
   (dont_care (c_under s) o = true \/ snd r = snd (spec_step (c_under s) o)).
 Proof.
@@ -372,60 +439,62 @@ Proof.
     cbn [op_keys] in HK.
   - (* Put *) inversion HK as [|? ? HK1 _]; subst. cbn. split; [|split; [reflexivity|right; reflexivity]].
     apply CI_write; assumption.
-  - (* PutBatch *) cbn [cache_step c_under c_cache c_now spec_step fst snd dont_care].
+  - (* PutBatch *) cbn [cache_step_gen c_under c_cache c_now spec_step fst snd dont_care].
     split; [|split; [reflexivity|right; reflexivity]]. apply CI_put_batch; assumption.
   - (* Get *) inversion HK as [|? ? HK1 _]; subst. specialize (He pk cc HK1).
-    cbn [cache_step c_under c_cache c_now spec_step fst snd dont_care].
-    destruct (c_get c pk cc) as [[[ex v]|]|] eqn:Eg; cbn [entry_ok] in He.
+    cbn [cache_step_gen c_under c_cache c_now spec_step fst snd dont_care]. unfold c_answer.
+    destruct (c_get c pk cc) as [[|ex v|]|] eqn:Eg; cbn [entry_ok] in He.
+    + cbn [fst snd]. split; [exact HCI|]. split; [reflexivity|right]. unfold get. rewrite He. reflexivity.
     + cbn [fst snd]. split; [exact HCI|]. split; [reflexivity|]. rewrite He.
       cbn [rexp]. destruct (Z.eqb_spec ex 0) as [E0|E0]; cbn [negb]; [right|left; reflexivity].
       subst. unfold get, lookup. rewrite He. reflexivity.
-    + cbn [fst snd]. split; [exact HCI|]. split; [reflexivity|right]. unfold get. rewrite He. reflexivity.
+    + (* marked: the storage answers, the fills find an entry *)
+      unfold fill_positive, set_pos_if_absent, set_neg_if_absent. rewrite flag_fill_guarded.
+      destruct (get now st pk cc) as [v|]; rewrite Eg; cbn [fst snd];
+        (split; [exact HCI|split; [reflexivity|right; reflexivity]]).
     + unfold get. rewrite He. cbn [option_map fst snd]. split; [|split; [reflexivity|right; reflexivity]].
       apply CI_negative; assumption.
   - (* GetBatch *)
     assert (HKc : Forall (fun cc => K (pk, cc)) ccs).
     { rewrite Forall_forall in *. intros cc Hin. apply HK. apply in_map_iff. exists cc. auto. }
-    cbn [cache_step c_under c_cache c_now spec_step fst snd dont_care].
-    destruct (forallb (fun cc => match c_get c pk cc with Some _ => true | None => false end) ccs) eqn:Eall.
+    cbn [cache_step_gen c_under c_cache c_now spec_step fst snd dont_care].
+    destruct (forallb (fun cc => match c_answer c pk cc with Some _ => true | None => false end) ccs) eqn:Eall.
     + cbn [fst snd]. split; [exact HCI|]. split; [reflexivity|].
       destruct (existsb _ ccs) eqn:Ed; [left; reflexivity|right]. f_equal. unfold get_batch.
       apply map_ext_in. intros cc Hin.
       rewrite forallb_forall in Eall. specialize (Eall cc Hin).
-      destruct (c_get c pk cc) as [e|] eqn:Eg; [|discriminate].
+      destruct (c_answer c pk cc) as [e|] eqn:Eg; [|discriminate].
       assert (Hd : (match raw_lookup st pk cc with Some r => negb (rexp r =? 0) | None => false end) = false).
       { destruct (match raw_lookup st pk cc with Some r => negb (rexp r =? 0) | None => false end) eqn:Ex; auto.
         exfalso. assert (T : existsb (fun cc => match raw_lookup st pk cc with Some r => negb (rexp r =? 0) | None => false end) ccs = true).
         { apply existsb_exists. exists cc. split; auto. }
         rewrite T in Ed. discriminate. }
       rewrite Forall_forall in HKc.
-      rewrite <- (get_cached_agrees st now c pk cc HCI (HKc cc Hin) e Eg Hd). destruct e as [[? ?]|]; reflexivity.
+      rewrite <- (get_cached_agrees st now c pk cc HCI (HKc cc Hin) e Eg Hd). destruct e; reflexivity.
     + cbn [fst snd]. split; [|split; [reflexivity|right; reflexivity]]. apply CI_batch_fill; assumption.
   - (* Read *) cbn. split; [exact HCI|split; [reflexivity|right; reflexivity]].
   - (* Ins *) inversion HK as [|? ? HK1 _]; subst.
-    cbn [cache_step c_under c_cache c_now spec_step fst snd dont_care]. unfold insert_if_not_exists.
+    cbn [cache_step_gen c_under c_cache c_now spec_step fst snd dont_care]. unfold insert_if_not_exists.
     destruct (lookup now st pk cc); cbn [fst snd]; (split; [|split; [reflexivity|right; reflexivity]]); auto.
     apply CI_write; assumption.
   - (* Cas *) inversion HK as [|? ? HK1 _]; subst.
-    cbn [cache_step c_under c_cache c_now spec_step fst snd dont_care]. unfold compare_and_swap.
+    cbn [cache_step_gen c_under c_cache c_now spec_step fst snd dont_care]. unfold compare_and_swap.
     destruct (lookup now st pk cc) as [r|]; [destruct (lex_eqb (rval r) old)|]; cbn [fst snd];
       (split; [|split; [reflexivity|right; reflexivity]]); auto.
     apply CI_write; assumption.
   - (* Cad *) inversion HK as [|? ? HK1 _]; subst.
-    cbn [cache_step c_under c_cache c_now spec_step fst snd dont_care]. rewrite flag_delete_marker. unfold compare_and_delete.
+    cbn [cache_step_gen c_under c_cache c_now spec_step fst snd dont_care]. rewrite flag_delete_marker. unfold compare_and_delete.
     destruct (lookup now st pk cc) as [r|] eqn:El; [destruct (lex_eqb (rval r) e)|]; cbn [fst snd];
       (split; [|split; [reflexivity|right; reflexivity]]); auto.
-    destruct HCI as [Hn He' Hs Hc]. cbn [c_now c_under c_cache fst snd] in *. constructor; cbn [c_now c_under c_cache fst snd]; auto.
-    + intros pk' cc' HK'. destruct (key_dec pk cc pk' cc') as [E|N].
-      * inversion E; subst. rewrite c_get_set_same. cbn. unfold lookup.
-        rewrite raw_del_same by assumption. reflexivity.
-      * rewrite c_get_set_other by assumption. eapply entry_ok_congr; [|apply He'; assumption].
-        apply raw_del_other; assumption.
-    + apply del_row_sorted. exact Hs.
-    + apply sm_put_sorted. exact Hc.
+    rewrite (set_neg_fits c pk cc (K_fits (pk, cc) HK1)).
+    apply (CI_set st _ now c pk cc CNeg HCI HK1).
+    + cbn [entry_ok]. unfold lookup. rewrite raw_del_same by exact (CI_sorted _ HCI). reflexivity.
+    + intros pk' cc' N. apply raw_del_other; [exact (CI_sorted _ HCI)|exact N].
+    + apply del_row_sorted. exact (CI_sorted _ HCI).
   - (* TTLGet *) inversion HK as [|? ? HK1 _]; subst. pose proof (He pk cc HK1) as Hk.
-    cbn [cache_step c_under c_cache c_now spec_step fst snd dont_care].
-    destruct (c_get c pk cc) as [[[ex v]|]|] eqn:Eg; cbn [entry_ok] in Hk.
+    cbn [cache_step_gen c_under c_cache c_now spec_step fst snd dont_care]. unfold c_answer.
+    destruct (c_get c pk cc) as [[|ex v|]|] eqn:Eg; cbn [entry_ok] in Hk.
+    + cbn [fst snd]. split; [exact HCI|]. split; [reflexivity|right]. unfold get. rewrite Hk. reflexivity.
     + unfold get, lookup. rewrite Hk. unfold expired, c_expired. cbn [rexp rval].
       destruct ((0 <? ex) && (ex <=? now)) eqn:Ex; cbn [fst snd option_map].
       * split; [|split; [reflexivity|right; reflexivity]].
@@ -436,7 +505,10 @@ Proof.
            ++ rewrite c_get_del_other by assumption. apply He'. assumption.
         -- apply sm_del_sorted. exact Hc.
       * split; [exact HCI|split; [reflexivity|right; reflexivity]].
-    + cbn [fst snd]. split; [exact HCI|]. split; [reflexivity|right]. unfold get. rewrite Hk. reflexivity.
+    + (* marked: the storage answers; a "missing" answer finds the entry and leaves it *)
+      unfold set_neg_if_absent.
+      destruct (get now st pk cc) as [v|]; try rewrite Eg; cbn [fst snd];
+        (split; [exact HCI|split; [reflexivity|right; reflexivity]]).
     + unfold get. rewrite Hk. cbn [option_map fst snd]. split; [|split; [reflexivity|right; reflexivity]].
       apply CI_negative; assumption.
   - (* TTLRead *) cbn. split; [exact HCI|split; [reflexivity|right; reflexivity]].
@@ -444,8 +516,15 @@ Proof.
   - (* Advance *) cbn. split; [|split; [reflexivity|right; reflexivity]].
     destruct HCI as [Hn He' Hs Hc]. cbn [c_now c_under c_cache fst snd] in *. constructor; cbn [c_now c_under c_cache fst snd]; auto.
     intros pk' cc' HK'. specialize (He' pk' cc' HK'). unfold entry_ok in *.
-    destruct (c_get c pk' cc') as [[[ex v]|]|]; auto; apply lookup_mono; auto.
+    destruct (c_get c pk' cc') as [[|ex v|]|]; auto; apply lookup_mono; auto.
 Qed.
+
+(* the code as it is: the flag read from the source says "marked" *)
+Theorem cache_step_transparent s o : CI s -> op_domain o ->
+  let r := cache_step spec_step s o in
+  CI (fst r) /\ c_under (fst r) = fst (spec_step (c_under s) o) /\
+  (dont_care (c_under s) o = true \/ snd r = snd (spec_step (c_under s) o)).
+Proof. unfold cache_step. rewrite flag_big_marked. exact (cache_step_gen_transparent s o). Qed.
 
 Fixpoint transparent_run (s : cstate) (ops : list sop) : Prop :=
   match ops with
